@@ -24,7 +24,8 @@ RULE = ('(i) Exhaustive grid: every attribute (and time, and unknown / foreign a
         'Non-trivial = a history with a rejected operation followed by an accepted mutation (grid: value at or just beyond '
         'a limit or ill-typed); distinct by (type, ops).'
         ' Later additions: SysexData values, int subclasses and integral Fractions as values, results of dict()'
-        ' and the data list are the caller\'s, option names (skip_checks) inside message text are refused.')
+        ' and the data list are the caller\'s, option names (skip_checks) inside message text are refused; floats and'
+        ' Fractions EQUAL to the stored value (also as a prefix of sysex data) by assignment and copy.')
 ASSUMPTIONS = ['skip_checks is never passed (excluded by the statement)', 'bool values are not generated',
                'NaN/inf times are not judged']
 
